@@ -16,10 +16,25 @@ def one(args):
     except Exception as e:  # the tree moved under the patch: report, do not crash the matrix
         return sid, {p: {"exit": 2, "violations": [], "errors": [f"STALE PATCH: {str(e)[:80]}"]} for p in props}
     out = {}
+    import signal
+
+    class _Timeout(Exception):
+        pass
+
+    def _alarm(*_a):
+        raise _Timeout()
+    signal.signal(signal.SIGALRM, _alarm)
     for p in props:
         buf = io.StringIO()
-        with contextlib.redirect_stdout(buf):
-            code, chk = run_property(p, "/repo", overlay=ov, write=False, quiet=True)
+        signal.alarm(300)
+        try:
+            with contextlib.redirect_stdout(buf):
+                code, chk = run_property(p, "/repo", overlay=ov, write=False, quiet=True)
+        except _Timeout:
+            out[p] = {"exit": 3, "violations": [], "errors": ["TIMEOUT after 300 s: the check does not terminate on this tree"]}
+            continue
+        finally:
+            signal.alarm(0)
         hits = [f"{r.id}:{i.key[:70]}" for r in chk.rules for i in r.instances if i.status == "violation"]
         out[p] = {"exit": code, "violations": hits[:5], "errors": [e[:100] for r in chk.rules for e in r.errors][:2]}
     return sid, out
